@@ -213,11 +213,23 @@ def check_competition(tier, seed, open_findings):
                   len(sel), fails, exhaustive=exhaustive, known=({K: nk} if nk else {}), samples=[dict(model=cm.show(sel[0]))] if sel else [], distinct=sum(r['decided'] for r in res if r))
 
 
+def prohibited_models():
+    """particles with maxOccurs = 0 (an element, a choice, a sequence, a group nested in one): they contribute nothing to the language, wherever they stand - first in the
+    model (where the visitor starts its descent), last, inside a nested group, next to a particle that reuses their names, under a repeating parent"""
+    a = ('e', 'a', (1, 1)); b = ('e', 'b', (1, 1)); bo = ('e', 'b', (0, 1)); ao = ('e', 'a', (0, None))
+    out = []
+    for p in [('e', 'a', (0, 0)), ('cho', [a], (0, 0)), ('seq', [a, b], (0, 0)), ('seq', [('cho', [a], (0, 0))], (1, 1)), ('cho', [a, b], (0, 0)), ('seq', [a], (0, 0)), ('cho', [('seq', [a, b], (0, 0)), b], (1, 1))]:
+        out += [('seq', [p, b], (1, 1)), ('seq', [b, p], (1, 1)), ('seq', [p, bo], (1, 1)), ('cho', [p, b], (1, 1)), ('seq', [p, a], (1, 1)), ('seq', [('seq', [p, a], (1, 1)), b], (1, 1)),
+                ('seq', [p, b], (0, None)), ('seq', [bo, p, a], (1, 2)), ('seq', [p, ao, b], (1, 1)), ('cho', [('seq', [p, b], (1, 1)), a], (1, 2))]
+    return out
+
+
 def run(tier, seed, open_findings):
     known = load_instances('C01_instances.json') if 'C01-single-particle-group-counter' in open_findings else {}
     out = [check(list(cm.two_level_models()), 2, tier, seed, known, 'C01.two_level_models', 6),
            check(list(cm.two_level_models_rev()), 2, tier, seed, known, 'C01.two_level_models_rev', 6),
-           check(list(cm.variant_models()), 3, tier, seed, known, 'C01.variant_models', 1), check_subst(tier, seed), check_refs(tier, seed), check_competition(tier, seed, open_findings)]
+           check(list(cm.variant_models()), 3, tier, seed, known, 'C01.variant_models', 1), check_subst(tier, seed), check_refs(tier, seed), check_competition(tier, seed, open_findings),
+           check(prohibited_models(), 3, tier, seed, {}, 'C01.prohibited_particles', 1)]
     from . import C01_xsd11
     return out + C01_xsd11.run(tier, seed, open_findings)
 
